@@ -20,7 +20,7 @@ RULE = ('pairs of magnitudes with/without absolute uncertainty, of either sign, 
 SHARDS = {'quick': 16, 'thorough': 16}
 MIN_NONTRIVIAL = {'quick': 5000, 'thorough': 120000}
 REQUIRED_CLASSES = ['both-operands-one-object', 'decimal-exact-plus-uncertain-float', 'relative-uncertainty-input', 'relative-uncertainty-on-negative-value', 'relative-uncertainty-ctor', 'relative-uncertainty-setter', 'relative-uncertainty-through-magnitude-object', 'cancelling-units-collapse', 'quantity-ops-same-dimension-other-unit', 'mag:add', 'mag:sub', 'mag:mul', 'mag:truediv', 'mag:pow', 'mag:neg', 'exact-partner-negative', 'exact-partner-left',
-                    'per-element-uncertainty-with-exact-elements', 'per-element:quantity-level', 'both-uncertain-positive', 'both-exact', 'array', 'scalar', 'negative-exponent', 'quantity-conversion',
+                    'conversion-by-rebase', 'per-element-uncertainty-with-exact-elements', 'per-element:quantity-level', 'both-uncertain-positive', 'both-exact', 'array', 'scalar', 'negative-exponent', 'quantity-conversion',
                     'quantity-mixed-unit-sum', 'quantity-ops', 'repo-tests-under-contracts', 'value-query-then-reuse', 'sum-evaluated-twice']
 REQUIRED_MONITORS = ['decimal_sum_compares', 'contract:Magnitude._add', 'contract:Magnitude._sub', 'contract:Magnitude._mul', 'contract:Magnitude._truediv',
                      'contract:Magnitude.__pow__', 'contract:Magnitude.__neg__', 'contract:UnitType.convert',
@@ -128,7 +128,7 @@ def cases(rng, tier, shard, nshards, ctx):
             fam = rng.choice(list(FAM))
             u, v = rng.choice(FAM[fam]), rng.choice(FAM[fam])
             x = gv(rng, arr)
-            yield dict(t='qconv', u=u, v=v, x=x, e=ge(rng, x), how=rng.choice(['to', 'to', 'value-then-abse']))
+            yield dict(t='qconv', u=u, v=v, x=x, e=ge(rng, x), how=rng.choice(['to', 'to', 'value-then-abse', 'rebase']))
         elif r < 0.86:
             fam = rng.choice(list(FAM))
             ua, ub = rng.choice(FAM[fam]), rng.choice(FAM[fam])
@@ -249,6 +249,23 @@ def _run(case, ctx):
             classes += ['quantity-conversion', 'array' if isinstance(case['x'], list) else 'scalar']
             uncertain = True
             u, v, x, e = case['u'], case['v'], case['x'], case['e']
+            if case['how'] == 'rebase' and u != v and not any(c_ in u + v for c_ in '*/0123456789'):
+                # rebase() is a unit conversion too: u*v (two units of one dimension) becomes u2, the number and its absolute
+                # uncertainty are scaled by the same factor F[v]/F[u]
+                classes.append('conversion-by-rebase')
+                q = Q(list(x) if isinstance(x, list) else x, '%s*%s' % (u, v), abse=e)
+                rel0 = lst(q.rele())
+                q.rebase()
+                f = F[v] / F[u]
+                mon['conversion_scaling_compares'] = 1
+                xs_ = x if isinstance(x, list) else [x]
+                rv, ae = lst(q.magnitude.value), lst(q.abse())
+                if q.units() not in ('%s2' % u,) or not all(close(o, x_ * f, 1e-9) for o, x_ in zip(rv, xs_)):
+                    pass          # which unit survives and the value itself are C04/C06 business
+                elif ae is None or not all(close(o, e * f, 1e-9) for o in ae) or not all(close(o, x_, 1e-9) for o, x_ in zip(lst(q.rele()), rel0)):
+                    devs.append(dev('rebase-does-not-scale-uncertainty-with-value', dict(u=u, v=v, x=x, abse=e, observed=ae, expected=e * f)))
+                res = q
+                raise StopIteration
             q = Q(list(x) if isinstance(x, list) else x, u, abse=e)
             rel0 = lst(q.rele())
             if case['how'] == 'value-then-abse':
@@ -462,6 +479,8 @@ def _run(case, ctx):
             elif re_ is None or not all(close(o, x_ * f, 1e-9) for o, x_ in zip(rv, xs)) or not all(close(o, e * f, 1e-9) for o in re_):
                 devs.append(dev('cancelling-units-collapse-does-not-scale-uncertainty-with-value',
                                 dict(expr=expr, x=x, abse=e, observed_value=rv, observed_abse=re_, expected_value=[x_ * f for x_ in xs], expected_abse=e * f)))
+    except StopIteration:
+        pass
     except Exception as e_:
         exc = e_
     for r in C.take_records():
